@@ -8,7 +8,7 @@ PID = "C08"
 RULE = ("histories of 3-10 operations over 2+ variables: constructors of all kinds, deepcopy, ~, operators | & - ^ on "
         "general-position operands, queries (contains, float), then in-place move/scale/rotate of operands or results; "
         "after EVERY step: exact control points of every live object, the aliasing partition of all control-point slots "
-        "(id() vs heap locations of the model MH), snapshots of all untouched variables; non-trivial = the history "
+        "(id() vs heap locations of the model MH), snapshots of all untouched variables, and the ANSWERS of every object not transformed in that step (box, area, membership of its own boundary points) before and after; non-trivial = the history "
         "contains an operator and a later in-place transformation; distinct = SHA-1 of the history")
 PROOF_STATUS = ("Props/C08.v: frame theorems for move/scale/rotate and for all value operations in every reachable state, "
                 "variables never share curves or point objects, operands of operators are only re-split")
@@ -61,6 +61,41 @@ def nontrivial(case):
     return any(k in ("move", "scale", "rot") for k in ks[i + 1:])
 
 
+def _behaviour(env):
+    """what each live object ANSWERS (not what it stores): bounding box, area, membership of some of its own boundary
+    points and of a point off its boundary -- asked before and after every step (which also fills whatever the
+    library memoises, so that state shared through a memo shows)"""
+    out = []
+    for S in env:
+        if isinstance(S, (I.EmptyShape, I.WholeShape)):
+            out.append(type(S).__name__)
+            continue
+        def ask(S=S):
+            b = S.box()
+            ans = [tuple(map(str, b.lowpt)), tuple(map(str, b.toppt)), float(S)]
+            for J in S.jordans:
+                sg = J.segments[0]
+                p0, p1 = sg.ctrlpoints[0], sg.ctrlpoints[-1]
+                mid = sg(0.5)
+                far = (p0[0] + 1000, p0[1] + 777)
+                ans.append([bool(S.contains_point((p0[0], p0[1]), True)), bool(S.contains_point((mid[0], mid[1]), True)),
+                            bool(S.contains_point((mid[0], mid[1]), False)), bool(S.contains_point(far, True)),
+                            bool((p1[0], p1[1]) in J)])
+            return ans
+        out.append(I.outcome(ask))
+    return out
+
+
+def _same_answers(x, y):
+    """equal, the float area up to 1e-9 relative (re-splitting a float curve changes the order of a sum)"""
+    if x == y:
+        return True
+    if not (isinstance(x, tuple) and isinstance(y, tuple) and x[0] == y[0] == "ok"):
+        return False
+    a, b = x[1], y[1]
+    return a[:2] == b[:2] and a[3:] == b[3:] and abs(a[2] - b[2]) <= 1e-9 * max(1.0, abs(a[2]))
+
+
 def check(ctx, case):
     fails = []
     hist = case["hist"]
@@ -68,6 +103,7 @@ def check(ctx, case):
     env = []
     for n, op in enumerate(hist):
         before = H.snapshot(env)
+        bbefore = _behaviour(env)
         ids_before = [id(S) for S in env]
         try:
             H.impl_step(env, op)
@@ -78,7 +114,16 @@ def check(ctx, case):
             return fails
         ctx.count("op:" + op[0])
         after = H.snapshot(env)
+        bafter = _behaviour(env)
         k = op[0]
+        # the ANSWERS of every object that was not itself transformed in place are what they were
+        for v in range(len(bbefore)):
+            if k in ("move", "scale", "rot") and v == op[1]:
+                continue
+            if not _same_answers(bbefore[v], bafter[v]):
+                fails.append(Fail(kind="O", what="after %s the answers (box / area / membership of own boundary points) of variable %d changed although "
+                                  "it was not transformed" % (k, v), step=n, impl=str(bafter[v])[:300], expected=str(bbefore[v])[:300]))
+                return fails
         touched = set()
         if k == "bin":
             touched = {op[2]} if op[1] == "-" else {op[2], op[3]}     # a - b = a & ~b: only a is re-split
